@@ -56,6 +56,11 @@ var (
 
 // OLVMTx builds a signed OLVM transaction.
 func OLVMTx(c *Ctx, from *world.Account, key []byte, nonce uint64, to *ethcmn.Address, value *big.Int, data []byte, gas int64, price string, chainID *big.Int, memo string) []byte {
+	return OLVMTxAL(c, from, key, nonce, to, value, data, gas, price, chainID, memo, nil, 0)
+}
+
+// OLVMTxAL is OLVMTx with the two payload fields the signature does not cover (access list, type).
+func OLVMTxAL(c *Ctx, from *world.Account, key []byte, nonce uint64, to *ethcmn.Address, value *big.Int, data []byte, gas int64, price string, chainID *big.Int, memo string, al *ethtypes.AccessList, typ int64) []byte {
 	var toAddr *action.Address
 	var ethTo *ethcmn.Address
 	if to != nil {
@@ -63,7 +68,7 @@ func OLVMTx(c *Ctx, from *world.Account, key []byte, nonce uint64, to *ethcmn.Ad
 		toAddr = &a
 		ethTo = to
 	}
-	msg := &olvmact.Transaction{Nonce: nonce, From: from.Addr, To: toAddr, Amount: action.Amount{Currency: "OLT", Value: txb.Amt("OLT", value.String()).Value}, Data: data, ChainID: chainID}
+	msg := &olvmact.Transaction{Nonce: nonce, From: from.Addr, To: toAddr, Amount: action.Amount{Currency: "OLT", Value: txb.Amt("OLT", value.String()).Value}, Data: data, ChainID: chainID, AccessList: al, TxType: typ}
 	fee := txb.Fee(price, gas)
 	raw := txb.Raw(msg, fee, memo)
 	ethTx := ethtypes.NewTx(&ethtypes.LegacyTx{Nonce: nonce, To: ethTo, Value: value, Gas: uint64(gas), GasPrice: fee.Price.Value.BigInt(), Data: data})
@@ -118,6 +123,22 @@ func (o *OLVM) sandwich(c *Ctx, a, b *world.Account) []hist.TxSpec {
 	return out
 }
 
+// accessListFailure: a transfer whose gas limit is exactly the intrinsic gas of a plain transfer but which
+// carries an access list in its payload: it passes validation (which prices it without the list) and is
+// rejected by the state transition after the gas was bought. A good transfer of the same sender follows in
+// the same block. (Reaches a block only through a proposer that skips its mempool check.)
+func (o *OLVM) accessListFailure(c *Ctx, a, b *world.Account) []hist.TxSpec {
+	to := ethcmn.BytesToAddress(b.Addr)
+	key := c.W.EthKeys[a.Addr.String()]
+	n := o.nonce[a.Addr.String()]
+	al := &ethtypes.AccessList{{Address: to, StorageKeys: []ethcmn.Hash{{1}}}}
+	bz := OLVMTxAL(c, a, key, n, &to, big.NewInt(77), nil, 21000, "1000000000", ChainIDOf(c.W), fmt.Sprint(n), al, 0)
+	sp := hist.TxSpec{Kind: "OLVM", Bytes: bz, Note: "gas at the plain intrinsic cost with an access list (rejected after the gas was bought)", Signers: []string{a.Addr.String()}, Force: true}
+	sp.Meta = map[string]string{"from": a.Addr.String(), "nonce": fmt.Sprint(n), "value": "77", "to": keys.Address(to.Bytes()).String(), "data": "", "expect": "fail"}
+	good := o.tx(c, a, &to, big.NewInt(3000+c.R.Int63n(1000)), nil, 21000, "plain transfer right after a rejected one of the same sender")
+	return []hist.TxSpec{sp, good}
+}
+
 func word(b []byte) []byte {
 	out := make([]byte, 32)
 	copy(out[32-len(b):], b)
@@ -161,6 +182,8 @@ func (o *OLVM) Plan(c *Ctx) []hist.TxSpec {
 		out = append(out, o.create(c, es[0], "loop", rtLoop, big.NewInt(0)))
 	case 7, 15, 31:
 		out = append(out, o.sandwich(c, es[0], es[1])...)
+	case 8, 16:
+		out = append(out, o.accessListFailure(c, es[0], es[1])...)
 	default:
 		k := 1
 		if !o.OneTx {
@@ -171,7 +194,9 @@ func (o *OLVM) Plan(c *Ctx) []hist.TxSpec {
 			if i > 0 && o.OneTx {
 				break
 			}
-			switch c.R.Intn(12) {
+			switch c.R.Intn(13) {
+			case 12:
+				out = append(out, o.accessListFailure(c, from, es[pick(c.R, len(es))])...)
 			case 11:
 				out = append(out, o.sandwich(c, from, es[pick(c.R, len(es))])...)
 			case 8:
